@@ -17,6 +17,7 @@ import (
 //	func VerifC04AckFencing() {
 type Harness struct {
 	Props    []string
+	TProps   []string // properties this harness serves in the thorough tier only
 	Pkg      string // directory relative to the repo root, e.g. internal/queue
 	Fn       string
 	Tier     string // quick: runs in both tiers; thorough: thorough tier only
@@ -52,6 +53,8 @@ func scanHarnesses() ([]Harness, error) {
 				switch k {
 				case "props":
 					h.Props = strings.Split(v, ",")
+				case "tprops":
+					h.TProps = strings.Split(v, ",")
 				case "tier":
 					h.Tier = v
 				case "native":
